@@ -396,8 +396,12 @@ fn validate_nameserver_response(
             if rtype.matches(question.qtype) && an.name == final_name {
                 rrs_for_query.push(an.clone());
                 seen_final_record = true;
-            } else if rtype == RecordType::CNAME && cname_map.contains_key(&an.name) {
-                rrs_for_query.push(an.clone());
+            } else if let RecordTypeWithData::CNAME { cname } = &an.rtype_with_data {
+                // only the CNAMEs which were actually followed from the
+                // question name, not any CNAME the section happens to hold
+                if cname_map.get(&an.name) == Some(cname) {
+                    rrs_for_query.push(an.clone());
+                }
             }
         }
 
@@ -534,17 +538,19 @@ fn follow_cnames(
     }
 
     let mut seen = HashSet::new();
+    let mut followed = HashMap::<DomainName, DomainName>::new();
     let mut final_name = target.clone();
     while let Some(target) = cname_map.get(&final_name) {
         if seen.contains(target) {
             return None;
         }
         seen.insert(target.clone());
+        followed.insert(final_name.clone(), target.clone());
         final_name = target.clone();
     }
 
     if got_match || !seen.is_empty() {
-        Some((final_name, cname_map))
+        Some((final_name, followed))
     } else {
         None
     }
